@@ -311,9 +311,11 @@ func report(run *propRun, w *World, db *ContractDB) int {
 		// obligations matching open known findings are not discharged; a proof-level claim excludes them explicitly
 		ev["coverage"].(map[string]interface{})["obligations_excluding_known_findings"] = nOb - nKnown
 	}
-	_ = os.MkdirAll(filepath.Join(verifDir(), "evidence"), 0o755)
-	b, _ := json.MarshalIndent(ev, "", " ")
-	_ = os.WriteFile(filepath.Join(verifDir(), "evidence", prop+".json"), b, 0o644)
+	if os.Getenv("GOVC_NOEVIDENCE") == "" {
+		_ = os.MkdirAll(filepath.Join(verifDir(), "evidence"), 0o755)
+		b, _ := json.MarshalIndent(ev, "", " ")
+		_ = os.WriteFile(filepath.Join(verifDir(), "evidence", prop+".json"), b, 0o644)
+	}
 	fmt.Printf("%s [%s]: %d functions, %d lemmas, %d obligations, %d discharged, %d known findings, %d violations, %.1fs\n",
 		prop, run.tier, len(fns), len(run.lemmas), nOb, nDis, nKnown, nViol, time.Since(run.t0).Seconds())
 	if engineErr {
